@@ -196,6 +196,33 @@ def hostile_spec(rng):
                     o = rng.randrange(-k, L - k)
                     a.append(('attr', 'AdvX', (rng.choice(['add', 'sub', 'mul', 'min', 'max']), ('sattr', o, rng.choice(['AdvX', 'ShiftX', 'AttX', 'Break', 'Insert'])), ('const', rng.randrange(-5, 300)))))
             r['ret'] = rng.choice([0, 0, -1, -2, -3, 1, 3])
+    # slot-attribute sweep: writes and reads of EVERY attribute code the loader accepts (0..77; justification attributes 25+5*level for
+    # levels the font has and has not, collision and sequence attributes with and without collision info, CompRef indices), in every pass type
+    if rng.random() < 0.6:
+        nlev = rng.choice([0, 1, 1, 1, 2, 3, 4])
+        if nlev:
+            spec['nattrs'] = max(spec.get('nattrs', 8), 32)
+            spec['jlevels'] = [(8 + 4 * l, 9 + 4 * l, 10 + 4 * l, 11 + 4 * l) for l in range(nlev)]
+        hot = [25 + 5 * nlev + j for j in range(5)] + [25 + 5 * max(nlev - 1, 0) + j for j in range(5)]       # first missing level / last present level
+        for P in spec['passes']:
+            for r in P['rules']:
+                L = len(r['pat'])
+                pre = r.get('pre', P.get('pre', 0))
+                for k in range(pre, L):
+                    a = r['acts'][k - pre]
+                    if (a and a[0][0] in ('insert', 'delete')) or rng.random() > 0.4:
+                        continue
+                    an = rng.choice(hot) if rng.random() < 0.5 else rng.choice([c for c in range(0, 78) if c != 55 and c != 2])
+                    if rng.random() < 0.7:
+                        val = ('const', rng.choice([0, 1, -1, 7, 300, 32767, -32768]))
+                        if an <= 29 and rng.random() < 0.3:
+                            a.append(('rawattr', rng.choice(['IATTR_SET', 'IATTR_ADD', 'IATTR_SUB']), an, rng.choice([0, 0, 1, 254]) if an == 15 else 0, val))
+                        else:
+                            a.append(('rawattr', rng.choice(['ATTR_SET', 'ATTR_SET', 'ATTR_ADD', 'ATTR_SUB']), an, None, val))
+                    else:
+                        o = rng.randrange(-k, L - k)
+                        src = ('rawsattr', o, an) if an > 29 or rng.random() < 0.6 else ('rawisattr', o, an, rng.choice([0, 0, 1, 200]) if an == 15 else 0)
+                        a.append(('attr', rng.choice(['AdvX', 'ShiftY']), src))
     if kind == 0 and spec['passes'][0]['type'] == 'sub':
         # insert storm: every 'a' becomes two glyphs again and again (64x growth cap / insert budget)
         c = 0
@@ -226,6 +253,17 @@ def hostile_spec(rng):
         for P in spec['passes'][:rng.randrange(1, nsub + 1) if nsub else 0]:
             if P['type'] == 'sub':
                 P['type'] = 'lb'
+    if kind in (5, 6) and spec['passes'][0]['type'] in ('sub', 'lb'):
+        # a slot that is changed, deleted AND referred to by a later item of the same rule: the loader snapshots it (temp copy), so the
+        # deleted slot is not the one in the rule's slot map when the rule's garbage is collected - at the first / last slot of the
+        # segment the first/last pointers are then maintained by the opcode alone
+        c = rng.randrange(ncls)
+        first = [('put_glyph', c), ('delete',)] if rng.random() < 0.7 else [('assoc', [0, 1]), ('delete',)]
+        second = [('put_copy', -1)] if kind == 5 else [('attr', 'AdvX', ('add', ('sattr', -1, 'AdvX'), ('const', 10)))]
+        rule = {'pre': 0, 'pat': [-1, -1], 'acts': [first, second], 'cons': [None, None], 'ret': rng.choice([0, 0, -1])}
+        if rng.random() < 0.5:
+            rule = {'pre': 0, 'pat': [-1, -1], 'acts': [second[:0] + [('put_copy', 1)] if kind == 5 else [], [('put_glyph', c), ('delete',)]], 'cons': [None, None], 'ret': 0}    # ... and the mirror image (last slot)
+        spec['passes'][0]['rules'].insert(rng.randrange(0, len(spec['passes'][0]['rules']) + 1), rule)
     if kind == 4 and spec['passes'][0]['type'] in ('sub', 'lb'):
         # delete everything / delete first or last
         spec['passes'][0]['rules'].insert(0, {'pre': 0, 'pat': [-1], 'acts': [[('delete',)]], 'cons': [None if rng.random() < 0.5 else ('lt', ('gattr', 0, 4), ('const', 2))], 'ret': 0})
@@ -437,6 +475,9 @@ def feat_spec(rng):
         else:
             settings = []
         feats.append({'id': fid, 'settings': settings, 'label': newname('f%d' % i) if i < 60 else 299, 'flags': 0x0800 if rng.random() < 0.15 else 0})
+    if rng.random() < 0.12:
+        for f in feats:
+            f['flags'] = 0x0800                               # every feature hidden: nothing enumerable, everything reachable by id
     if rng.random() < 0.3:
         feats[rng.randrange(len(feats))]['id'] = 1        # the language feature
         if rng.random() < 0.5:
